@@ -11,6 +11,7 @@ import r_scorer
 import r_misc
 import r_fmt
 import r_cost
+import r_panic
 
 NA = {
     "C17": "first-match order of a backtracking trie matcher over runtime rule lists: no structural "
@@ -27,6 +28,28 @@ def kind_scope(*mods):
 
 
 PROPS = {
+    "C10": {
+        "rules": [r_panic.run],
+        "explanation": "PANIC: every potential panic or silent-wrap site (assert terminators for "
+                       "bounds/overflow/division/shift, calls to unwrap/expect/panic!/assert!/"
+                       "indexing/copy_from_slice/chunks/..., narrowing `as` casts) in the "
+                       "workspace call graph below from_readers, from_readers_with_bigram_info, "
+                       "reset_user_lexicon_from_reader, map_connection_ids_from_iter, "
+                       "Dictionary::read and every workspace decoder is enumerated and must be "
+                       "discharged structurally (constant operands, dominating length guard, "
+                       "guarded subtraction, memory-bounded arithmetic, clamp before cast) or by "
+                       "an audited table entry whose guard requirement is re-verified (MAPLEN "
+                       "holds, category id bounded before CharInfo::new, empty model rejected, "
+                       "feature-span reset present).",
+        "level_text": "Static enumeration and discharge of panic sites: totality of the parsers "
+                      "for every input, up to the audited table and opaque dependencies. The "
+                      "clause `accepted => tokenizes safely` is a value invariant of the lattice "
+                      "and is NOT decided (the tokenization path is not audited).",
+        "level_note": "Trusted: csv-core/crawdad/regex/bincode/std contracts; the reasons in "
+                      "spec/panic_table.json (each names the invariant relied on).",
+        "technique": "MIR panic-site enumeration over the call graph with guard-dominance "
+                     "dischargers and a guard-checked justification table",
+    },
     "C11": {
         "rules": [r_fmt.lexicon_rows_reader, r_misc.parallel,
                   kind_scope("dictionary::lexicon", "dictionary::unknown")],
@@ -165,7 +188,7 @@ PROPS = {
     },
     "C01": {
         "rules": [r_token.access, r_token.dispatch, r_cand.cand, r_cand.unkfall, r_viterbi.traceback,
-                  r_reset.run_tokens],
+                  r_reset.run_tokens, r_panic.run_narrow_dict],
         "explanation": "ACCESS: every Token accessor is a projection of the one stored (end, node) "
                        "pair and the sentence's offset table (ranges, surface, ids, costs, "
                        "feature); DISPATCH: each lexicon type is looked up in its own component "
@@ -186,7 +209,7 @@ PROPS = {
                      "typestate dataflow",
     },
     "C02": {
-        "rules": [r_viterbi.viterbi, r_viterbi.traceback,
+        "rules": [r_viterbi.viterbi, r_viterbi.traceback, r_panic.run_narrow_lattice,
                   kind_scope("tokenizer", "connector", "lexicon::param", "unknown")],
         "explanation": "VITERBI: insert_node/insert_eos take (argmin, min) from one search over "
                        "the complete predecessor list of the very start_node they store, with "
